@@ -38,6 +38,7 @@ def tier_cases(prop, tier, seed):
     """The case set of a tier.  Generators know two sizes ("quick", "thorough"); where the larger one costs only
     seconds it is what the quick tier runs (QUICK_LEVEL), and the thorough tier runs it for several seeds
     (THOROUGH_SEEDS: the enumerated families repeat and are dropped, the random ones differ)."""
+    prop.REAL_TIER = tier       # generators whose quick tier runs their larger case set can still tell the tiers apart
     if tier == "quick":
         return prop.cases(getattr(prop, "QUICK_LEVEL", "quick"), seed)
     out, seen = [], set()
